@@ -202,6 +202,9 @@ class MultitaskMultivariateNormal(MultivariateNormal):
         res = self.__class__(new_mean, new_covar, interleaved=self._interleaved)
         return res
 
+    def _new_like(self, mean, covariance_matrix):
+        return self.__class__(mean, covariance_matrix, interleaved=self._interleaved)
+
     def get_base_samples(self, sample_shape=torch.Size()):
         base_samples = super().get_base_samples(sample_shape)
         if not self._interleaved:
